@@ -764,7 +764,7 @@ func replayOne(b *build, path string) (*failRec, string) {
 	}
 	if rf.Kind == "sequence" {
 		for _, g := range runSequence(b, rf.Race, rf.Args) {
-			if g.Class == rf.Class && g.Sig == rf.Sig {
+			if sameFailure(g.Class, g.Sig, rf.Class, rf.Sig) {
 				return g, ""
 			}
 		}
@@ -860,9 +860,36 @@ func replayCmd(path string) int {
 		fmt.Printf("replay passed: property=%s (recorded: class=%s sig=%s)\n", rf.Property, rf.Class, rf.Sig)
 		return 0
 	}
-	same := fr.Class == rf.Class && fr.Sig == rf.Sig
+	same := sameFailure(fr.Class, fr.Sig, rf.Class, rf.Sig)
 	fmt.Printf("VIOLATION property=%s replay=%s\n  class=%s sig=%s same-as-recorded=%v\n  %s\n", rf.Property, path, fr.Class, fr.Sig, same, firstLines(fr.Detail, 30))
 	return 1
+}
+
+// sameFailure reports whether two failures are the same violation. For data
+// races the detector's first report may name a different pair of accesses of the
+// same racing code when the run is replayed in a fresh process (which earlier
+// access it remembers depends on shadow-memory history), so races are compared
+// by the set of functions the two accesses are in.
+func sameFailure(class1, sig1, class2, sig2 string) bool {
+	if class1 != class2 {
+		return false
+	}
+	if class1 != "race" {
+		return sig1 == sig2
+	}
+	return raceKey(sig1) == raceKey(sig2)
+}
+
+func raceKey(sig string) string {
+	var fns []string
+	for _, part := range strings.Split(sig, " <-> ") {
+		f := strings.Fields(part)
+		if len(f) >= 2 {
+			fns = append(fns, f[1])
+		}
+	}
+	sort.Strings(fns)
+	return strings.Join(fns, "|")
 }
 
 // ---------------------------------------------------------------------------
@@ -883,7 +910,7 @@ func shrink(spec *propSpec, b *build, fr *failRec) *failRec {
 	// The failure must reproduce alone in a fresh process first.
 	p0 := write(cur, "orig.json")
 	r0, herr := replayOne(b, p0)
-	if herr != "" || r0 == nil || r0.Class != fr.Class || r0.Sig != fr.Sig {
+	if herr != "" || r0 == nil || !sameFailure(r0.Class, r0.Sig, fr.Class, fr.Sig) {
 		got := "passed"
 		if r0 != nil {
 			got = r0.Class + "|" + r0.Sig
@@ -938,7 +965,7 @@ func shrink(spec *propSpec, b *build, fr *failRec) *failRec {
 					p := write(&cand, fmt.Sprintf("cand-%d-%d.json", round, k))
 					r, herr := replayOne(b, p)
 					os.Remove(p)
-					if herr == "" && r != nil && r.Class == fr.Class && r.Sig == fr.Sig {
+					if herr == "" && r != nil && sameFailure(r.Class, r.Sig, fr.Class, fr.Sig) {
 						r.Replay = cands[k]
 						r.Seed = cur.Seed
 						r.race = cur.race
@@ -976,7 +1003,7 @@ func sequenceReplay(spec *propSpec, b *build, fr *failRec) *failRec {
 	}
 	got := runSequence(b, fr.race, args)
 	for _, g := range got {
-		if g.Class == fr.Class && g.Sig == fr.Sig {
+		if sameFailure(g.Class, g.Sig, fr.Class, fr.Sig) {
 			g.sequence = args
 			g.race = fr.race
 			g.Detail += "\n[this run fails only after the earlier runs of the same worker process; the replay file re-executes that whole history]"
